@@ -184,15 +184,17 @@ CHECKS['C16'] = dict(
          'the window or -1". One known finding (resource types without a text keyword).')
 CHECKS['C17'] = dict(
     category='other',
-    technique='contract-based deductive verification (pyvc): Instance.fixup_name over z3 strings, Vec.localise and '
-              'UVAxis.localise over the reals (texture-coordinate invariance as a polynomial identity in the orthonormality '
+    technique='contract-based deductive verification (pyvc): Instance.fixup_name over z3 strings, Vec.localise, '
+              'Side.localise (displacement face) and UVAxis.localise over the reals (texture-coordinate invariance as a polynomial identity in the orthonormality '
               'defect), C09 copy contracts re-run for the template frame, AST effect / termination obligations on '
               'collapse_one / collapse_all; bounded generator-based collapses',
     text='Proved on the real code: fixup_name leaves blank, @ and ! names alone and otherwise applies NONE / PREFIX / '
          'SUFFIX exactly, for all names; Vec.localise(origin, R) is p @ R + origin for all p, R, origin (the in-place '
          'operators generated by exec templates are reconstructed from the template text); UVAxis.localise keeps the '
          'texture coordinate of every moved point: u\'(P@R+O) - u(P) equals sum_ij P_i vec_j (row_i.row_j - delta_ij) / '
-         'scale for all reals, which is zero for every rotation. The template frame is the C09 copy contracts (coverage '
+         'scale for all reals, which is zero for every rotation; Side.localise on a displacement face moves plane '
+         'points and the start position, rotates vertex offsets / normals / offset normals and turns the texture axes. '
+         'The template frame is the C09 copy contracts (coverage '
          'and freshness of Entity / Solid / Side / Output / fixup copies, re-run here) plus an effect obligation: every '
          'store and mutating call of collapse_one goes to the target map, the Instance or a fresh copy. AST obligations: '
          'placement of brushes / origins / angles, substitution before name fix-up, collapse_all bounded by recur_limit, '
@@ -233,11 +235,12 @@ CHECKS['C20'] = dict(
 CHECKS['C19'] = dict(
     category='other',
     technique='contract-based deductive verification of the lookup kernels (pyvc, z3/cvc5 strings with str.replace_all '
-              'and an uninterpreted casefold) and of chain priority; bounded differential test of the four backends',
+              'and an uninterpreted casefold), of chain priority lookup and of add_sys search order; bounded differential test of the four backends',
     text='Zip and VPK _file_exists/_get_file are proved, for every name and every table, to look the file up under the '
          'single normal form fold(name with backslashes turned into slashes) and to raise FileNotFoundError exactly when '
          'that key is absent; FileSystemChain._get_file is proved (three symbolic members with arbitrary prefixes) to '
-         'return the first member, in order, that has the prefix-joined name. Folder walks, byte agreement between the '
+         'return the first member, in order, that has the prefix-joined name, and add_sys to put a priority member first '
+         'in the search order (also when it is already mounted) and any other last. Folder walks, byte agreement between the '
          'in-memory / zip / VPK / directory backends, listed-name-looks-up-to-that-file and de-duplicated chain walks are '
          'a bounded differential stand-in over generated file sets - not counted as proved.',
     note='trusted: casefold uninterpreted, zipfile and VPK I/O, pyvc; for names differing only in case the backends '
